@@ -101,7 +101,8 @@ def mcmc_kernels(R, KM):
         pdc = R.rng.choice([0.5, R.rng.uniform(0.1, 0.9)])
         alg = mc.IterativeTransDMetropolisHastingsGaussianTape(learning_length=10, chain_length=10, acceptance_rate_window=5, initial_sample='none',
                                                                  sampling_prior='uniform_prior' if uniform else 'flat_prior', dc_prior=pdc,
-                                                                 gaussian_jump_params=gauss)
+                                                                 gaussian_jump_params=gauss, dc_sigma_g=R.rng.choice([0.2, R.rng.uniform(0.05, 0.4)]),
+                                                                 dc_sigma_d=R.rng.choice([0.2, R.rng.uniform(0.05, 0.6)]))
         a = alg.alpha
 
         def st(dc):
